@@ -1,7 +1,8 @@
 /-
   Driver for the rekey-with-traffic-in-flight model (C11).  Request: `run <ev>…` with events
     start | in:<kind> | user:<type> | pk (peer KEXINIT) | kr (our engine finished → NEWKEYS) | pn (peer NEWKEYS)
-  kinds: data extdata window eof chanreq globreq reply globreq-reply chanopen close chanreq-reply
+  kinds: data extdata window eof chanreq globreq reply globreq-reply chanopen close chanreq-reply chanfailure
+         extdata-discarded
   and `lock <underLock 0/1> <userType> <inbox: h1|h0|pk|kr|pn …> / <schedule: u|t …>` (Channel.lock model)
        → <finished 0/1> <stuck 0/1: neither thread can move> <wire csv>
   and `gate <recheck 0/1> <n user messages> <schedule: u|k …>` (send gate at step granularity) → <wire csv>
@@ -18,6 +19,7 @@ def parseKind : String → Option Kind
   | "chanreq" => some .channelRequestNoReply | "globreq" => some .globalRequestNoReply
   | "reply" => some .requestReplyToUs | "globreq-reply" => some .globalRequestWantReply
   | "chanopen" => some .channelOpen | "close" => some .channelClose | "chanreq-reply" => some .channelRequestWantReply
+  | "chanfailure" => some .channelFailure | "extdata-discarded" => some .extendedDataDiscarded
   | _ => none
 
 def parseEv (t : String) : Option Ev :=
